@@ -61,30 +61,39 @@ def setup():
     tc.setup_imports()
 
 
-def generate(seed, tier):
+def generate(seed, tier, index=None):
     st = Streams(seed)
     w = st.workload
-    # rotate the configuration axis so that every combination is reached within 8 consecutive run indices
-    h = int(seed[:8], 16)
+    # rotate the configuration axis so that every combination is reached within 8 consecutive workloads
+    h = int(seed[:8], 16) if index is None else index
     method = ['nla', 'chic'][h % 2]
     mp = bool((h >> 1) % 2)
     stale = bool((h >> 2) % 2)
+    special = {3: 'tail-rejects', 6: 'placed-unmapped'}.get(h % 8)      # both are --multiprocess workloads
     genome = tw.genome(w, nmax=4)[:4]
     frags = tw.library(w, genome, method, n_target=w.randint(4, 40 if tier == 'thorough' else 24))
-    if w.random() < 0.3 and frags:
-        # layouts in which a fault-free run must still deliver every record: a contig holding only placed-unmapped reads,
-        # a last small contig holding only rejected fragments
-        ci = w.randrange(len(genome))
-        kind_ = w.choice(['placed_unmapped', 'qcfail'])
-        if kind_ == 'qcfail':
-            genome = genome + [[f'tail{len(genome)}', w.randint(300, 3000)]]
-            ci = len(genome) - 1
+    no_rejects = w.random() < 0.3
+    if special and frags:
+        # layouts in which a fault-free run must still deliver every record: a contig holding only placed-unmapped reads;
+        # two small contigs sharing a job, the last of which holds only rejected fragments (with --no_rejects its task writes nothing)
+        if special == 'tail-rejects':
+            genome = [[f'sm{i}', w.randint(600, 3000)] for i in range(2)] + [['tail2', w.randint(300, 3000)]]
+            for f in frags:
+                f['ctg'] = f['ctg'] % 2
+                clen = genome[f['ctg']][1]
+                f['L'] = min(f['L'], clen // 4)
+                f['site'] = w.randint(f['L'] + 8, clen - f['L'] - 8)
+                f['clip'] = 0
+            ci, kind_ = 2, 'qcfail'
+            no_rejects = True
+        else:
+            ci, kind_ = w.randrange(len(genome)), 'placed_unmapped'
         o = dict(w.choice(frags))
         clen = genome[ci][1]
         o.update({'n': 1000 + len(frags), 'ctg': ci, 'L': min(o['L'], clen // 3), 'extra': None, 'clip': 0, 'defect': kind_})
         o['site'] = w.randint(o['L'] + 8, clen - o['L'] - 8)
         frags = [f for f in frags if f['ctg'] != ci] + [o]
-    params = {'method': method, 'encoded': w.random() < 0.7, 'lib': 'LIB', 'stale': stale, 'tier': tier, 'no_rejects': w.random() < 0.3}
+    params = {'method': method, 'encoded': w.random() < 0.7, 'lib': 'LIB', 'stale': stale, 'tier': tier, 'no_rejects': no_rejects, 'special_layout': special}
     mode = {'mp': mp, 'no_rejects': params['no_rejects'], 'name': 'multi' if mp else 'single', 'width': st.schedule.randint(1, 3), 'schedule': {'policy': 'seeded'}, 'seed': seed}
     return {'params': params, 'genome': genome, 'workload': frags, 'mode': mode}   # 'plans' absent -> enumerated by execute()
 
